@@ -132,7 +132,8 @@ CLAIMED = {
              "trie (Raw.next_key_refines, Raw.key_after_refines); the loop of nodes() at raw level - root hash, database of encoded "
              "bodies, cache of raw bodies - yields the raw images of the tree-level loop on every stored trie (raw_nodes_loop_refines), "
              "hence over the database any history leaves, pruning on or off, exactly the pre-order sequence and never "
-             "MissingTraversalNode (raw_nodes_is_preorder); over ANY partially consistent database (bodies withheld or pruned, stale "
+             "MissingTraversalNode (raw_nodes_is_preorder), and items() over it yields exactly the stored pairs, each once, in key order "
+             "(raw_items_is_items, raw_items_exact); over ANY partially consistent database (bodies withheld or pruned, stale "
              "cached parents) it yields those images or stops with MissingTraversalNode for a node that really is absent "
              "(raw_nodes_loop_partial, raw_nodes_partial). Tie: keys/items/values/nodes sequences (also against the model's "
              "transcription of the loop, at tree level and over the database; with one body withheld: a start of the pre-order, then the  model's MissingTraversalNode) and next(k) for stored, neighbouring and foreign keys.",
